@@ -12,5 +12,5 @@ go build -o "$tmp/vcheck" ./cmd/vcheck
 "$tmp/vinstr" -dir /repo -out "$tmp/ov" mellium.im/xmpp mellium.im/xmpp/ibb mellium.im/xmpp/muc mellium.im/xmpp/receipts mellium.im/xmpp/history mellium.im/xmpp/blocklist mellium.im/xmpp/disco mellium.im/xmpp/internal/stream
 go build -overlay "$tmp/ov/overlay.json" -o "$tmp/vcheck-vs" ./cmd/vcheck
 # the free-running complement of the scheduler-based checks is a -race build of the same harness
-go build -race -overlay "$tmp/ov/overlay.json" -o "$tmp/vcheck-race" ./cmd/vcheck
+go build -race -gcflags=all=-l -overlay "$tmp/ov/overlay.json" -o "$tmp/vcheck-race" ./cmd/vcheck
 "$tmp/vcheck" list
